@@ -1358,6 +1358,27 @@ theorem split_tail (L : Str) (tl : List Str) (hL : ';' ∉ L) (htl : ∀ p ∈ t
     have e : L ++ tailText (p :: ps) = L ++ [';'] ++ (p ++ tailText ps) := by simp [tailText]
     rw [e, pySplit_first _ (by simp) (by simpa using none L hL), ih p (htl p (by simp)) (fun q hq => htl q (by simp [hq]))]
 
+/-- `line.rstrip("\n").split(";")` of a written line with a tail -/
+theorem parts_written {tok : Str} (htok : tokOK tok = true) {reac prod : List Term}
+    (hr : ∀ t ∈ reac, t.ok tok = true) (hp : ∀ t ∈ prod, t.ok tok = true) (tl : List Str)
+    (htl : ∀ p ∈ tl, ';' ∉ p ∧ '\n' ∉ p) :
+    pySplit Printing.partSep (rstripChars Printing.lineEnd (writeLine tok reac prod ++ tailText tl))
+      = writeLine tok reac prod :: tl := by
+  have hA : rstripChars Printing.lineEnd (writeLine tok reac prod ++ tailText tl)
+      = writeLine tok reac prod ++ tailText tl := by
+    apply rstripChars_id
+    intro c hc
+    have hcn : c ≠ '\n' := by
+      cases htt : tailText tl with
+      | nil => rw [htt, List.append_nil] at hc; exact line_last htok hr hp c hc
+      | cons x xs =>
+        rw [getLast?_append_ne (by rw [htt]; simp)] at hc
+        rcases mem_tailText (List.mem_of_getLast? hc) with h1 | ⟨q, hq, hcq⟩
+        · rw [h1]; decide
+        · intro e; subst e; exact (htl q hq).2 hcq
+    simp [lineEnd_is, hcn]
+  rw [hA, partSep_is]; exact split_tail _ _ (line_noSemi htok hr hp) (fun p hp' => (htl p hp').1)
+
 /-- **`to_reaction` up to the constructor, on a written line with any `;` tail**: the stoichiometry is read as written
     whatever follows; the parameter text is exactly the first tail part stripped, the keyword parts are the others. -/
 theorem toRaw_written {tok : Str} (allowed : Allowed) (htok : tokOK tok = true) {reac prod : List Term}
@@ -1863,9 +1884,9 @@ theorem check_parsed {tok : Str} {reac prod : List Term} (hr : ∀ t ∈ reac, t
 theorem toReaction_written {tok : Str} (allowed : Allowed) (htok : tokOK tok = true) {reac prod : List Term}
     (hr : ∀ t ∈ reac, t.ok tok = true) (hp : ∀ t ∈ prod, t.ok tok = true) (tl : List Str)
     (htl : ∀ p ∈ tl, ';' ∉ p ∧ '\n' ∉ p) :
-    toReaction allowed tok (writeLine tok reac prod ++ tailText tl) =
+    toReactionCore allowed tok (writeLine tok reac prod ++ tailText tl) =
       if allAllowed allowed reac prod then outcome reac prod (tl.head?.map strip) else .error .unknownKey := by
-  unfold toReaction
+  unfold toReactionCore
   rw [toRaw_written allowed htok hr hp tl htl]
   by_cases hA : allAllowed allowed reac prod = true
   · simp only [hA, if_true, mkReaction]
@@ -1934,8 +1955,8 @@ theorem all_has_sortDict {allowed : Allowed} {d : Dict} (h : d.all (fun kv => al
   exact (List.all_eq_true.mp h) (k, v) hv
 
 theorem toReaction_keys_allowed {allowed : Allowed} {tok line : Str} {r : Reaction}
-    (h : toReaction allowed tok line = .ok r) : ∀ k ∈ r.keys, allowed.has k = true := by
-  unfold toReaction at h
+    (h : toReactionCore allowed tok line = .ok r) : ∀ k ∈ r.keys, allowed.has k = true := by
+  unfold toReactionCore at h
   split at h
   · simp at h
   · rename_i raw hraw
@@ -2130,7 +2151,7 @@ theorem parse_print_gen {tok : Str} (htok : tokOK tok = true) {r : Reaction} (hr
     (wp : Bool) (hpar : wp = true → ∀ p, r.param = some p → Tight p ∧ ';' ∉ p ∧ '\n' ∉ p) :
     printReaction tok wp false r = some (writeLine tok (termsOf r.reac) (termsOf r.prod) ++
         tailText (if wp then (r.param.map (' ' :: ·)).toList else [])) ∧
-      toReaction .none tok (writeLine tok (termsOf r.reac) (termsOf r.prod) ++
+      toReactionCore .none tok (writeLine tok (termsOf r.reac) (termsOf r.prod) ++
         tailText (if wp then (r.param.map (' ' :: ·)).toList else []))
         = .ok ⟨r.reac, r.prod, [], [], if wp then r.param else none, none⟩ := by
   have hr := goodDict_terms hre
@@ -2171,7 +2192,7 @@ theorem parse_print_gen {tok : Str} (htok : tokOK tok = true) {r : Reaction} (hr
 theorem parse_print {tok : Str} (htok : tokOK tok = true) {r : Reaction} (hre : GoodDict tok r.reac)
     (hpr : GoodDict tok r.prod) (hir : r.inactReac = []) (hip : r.inactProd = []) (heff : r.anyEffect = true) :
     ∃ s, printReaction tok false false r = some s ∧
-      toReaction .none tok s = .ok ⟨r.reac, r.prod, [], [], none, none⟩ := by
+      toReactionCore .none tok s = .ok ⟨r.reac, r.prod, [], [], none, none⟩ := by
   have := parse_print_gen htok hre hpr hir hip heff false (by intro h; cases h)
   exact ⟨_, this.1, by simpa using this.2⟩
 
@@ -2180,7 +2201,7 @@ theorem parse_print_param {tok : Str} (htok : tokOK tok = true) {r : Reaction} (
     (hpr : GoodDict tok r.prod) (hir : r.inactReac = []) (hip : r.inactProd = []) (heff : r.anyEffect = true)
     {p : Str} (hparam : r.param = some p) (hpt : Tight p) (hps : ';' ∉ p) (hpn : '\n' ∉ p) :
     ∃ s, printReaction tok true false r = some s ∧
-      toReaction .none tok s = .ok ⟨r.reac, r.prod, [], [], some p, none⟩ := by
+      toReactionCore .none tok s = .ok ⟨r.reac, r.prod, [], [], some p, none⟩ := by
   have := parse_print_gen htok hre hpr hir hip heff true (by
     intro _ q hq; rw [hparam] at hq; simp at hq; subst hq; exact ⟨hpt, hps, hpn⟩)
   exact ⟨_, this.1, by simpa [hparam] using this.2⟩
@@ -2320,6 +2341,36 @@ theorem printed_head {tok : Str} (htok : tokOK tok = true) {a b : Dict} (ha : Go
         obtain ⟨d0, dr, hdr, hd0⟩ := natStr_head_digit n
         rw [hdr] at hcr; simp at hcr; rw [← hcr.1]; exact hd0
 
+/-! ### the `eval` layer on written lines -/
+
+/-- on a written line with at most a parameter part (no keyword part), `from_string` is the eval-free core followed by
+    the treatment of the parameter text -/
+theorem toReaction_lift {tok : Str} (ev : Bool) (allowed : Allowed) (htok : tokOK tok = true) {reac prod : List Term}
+    (hr : ∀ t ∈ reac, t.ok tok = true) (hp : ∀ t ∈ prod, t.ok tok = true) (tl : List Str)
+    (htl : ∀ p ∈ tl, ';' ∉ p ∧ '\n' ∉ p) (hlen : tl.length ≤ 1)
+    (hev : ev = true → paramEvalOK (tl.head?.map strip) = true) :
+    toReaction ev allowed tok (writeLine tok reac prod ++ tailText tl) =
+      match toReactionCore allowed tok (writeLine tok reac prod ++ tailText tl) with
+      | .error e => .error e
+      | .ok r => .ok { r with param := finalParam ev r.param, name := none } := by
+  unfold toReaction
+  rw [parts_written htok hr hp tl htl]
+  have h2 : ¬ ((writeLine tok reac prod :: tl).length > 2) := by simp; omega
+  simp only [h2, if_false, List.drop_succ_cons, List.drop_zero]
+  cases ev
+  · simp; rfl
+  · simp [hev rfl]; rfl
+
+/-- a parameter text that `eval` turns into a number: not the quoted form, not `None`, a Python numeric literal
+    (every `%.3g` / `str(int)` output is) -/
+def NumText (p : Str) : Prop := classifyParam p = .expr p ∧ p ≠ "None".toList ∧ pyNumLit p = true
+
+theorem finalParam_num {p : Str} (h : NumText p) : finalParam true (some p) = some p ∧ paramEvalOK (some p) = true := by
+  obtain ⟨h1, h2, h3⟩ := h
+  have e : "None".toList = ['N', 'o', 'n', 'e'] := by decide
+  rw [e] at h2
+  simp [finalParam, paramEvalOK, h1, h2, h3]
+
 /-- a reaction that `ReactionSystem.string()` prints in a way `from_string` reads back -/
 structure Printable (tok : Str) (cts : List Str) (wp : Bool) (r : Reaction) : Prop where
   reac : GoodDict tok r.reac
@@ -2328,7 +2379,7 @@ structure Printable (tok : Str) (cts : List Str) (wp : Bool) (r : Reaction) : Pr
   noInactP : r.inactProd = []
   effect : r.anyEffect = true
   /-- a printed parameter text is non-empty, without surrounding blanks, `;` or newline (every `%.3g` output is) -/
-  param : wp = true → ∀ p, r.param = some p → Tight p ∧ ';' ∉ p ∧ '\n' ∉ p
+  param : wp = true → ∀ p, r.param = some p → Tight p ∧ ';' ∉ p ∧ '\n' ∉ p ∧ NumText p
   /-- no key contains a newline -/
   noNewline : ∀ kv ∈ r.reac ++ r.prod, '\n' ∉ kv.1
   /-- the printed line does not look like a comment: no comment token starts with a digit, with the first character of
@@ -2344,9 +2395,10 @@ def normal (wp : Bool) (r : Reaction) : Reaction := ⟨r.reac, r.prod, [], [], i
 
 theorem lineOf_facts {tok : Str} {cts : List Str} {wp : Bool} {r : Reaction} (htok : tokOK tok = true)
     (hnl : '\n' ∉ tok) (h : Printable tok cts wp r) :
-    printReaction tok wp false r = some (lineOf tok wp r) ∧ toReaction .none tok (lineOf tok wp r) = .ok (normal wp r) ∧
+    printReaction tok wp false r = some (lineOf tok wp r) ∧ toReactionCore .none tok (lineOf tok wp r) = .ok (normal wp r) ∧
     '\n' ∉ lineOf tok wp r ∧ (strip (lineOf tok wp r) != [] && !(cts.any fun ct => startsWith ct (strip (lineOf tok wp r)))) = true := by
-  obtain ⟨h1, h2⟩ := parse_print_gen htok h.reac h.prod h.noInactR h.noInactP h.effect wp h.param
+  obtain ⟨h1, h2⟩ := parse_print_gen htok h.reac h.prod h.noInactR h.noInactP h.effect wp
+    (fun hw p hp => ⟨(h.param hw p hp).1, (h.param hw p hp).2.1, (h.param hw p hp).2.2.1⟩)
   refine ⟨h1, h2, ?_, ?_⟩
   · unfold lineOf
     intro hm
@@ -2367,7 +2419,7 @@ theorem lineOf_facts {tok : Str} {cts : List Str} {wp : Bool} {r : Reaction} (ht
             simp only [List.mem_cons] at hcq
             rcases hcq with hcq | hcq
             · exact absurd hcq (by decide)
-            · exact (h.param rfl p hpm).2.2 hcq
+            · exact (h.param rfl p hpm).2.2.1 hcq
   · obtain ⟨c, rr, hs, hc⟩ := printed_head htok h.reac h.prod (tailText (if wp then (r.param.map (' ' :: ·)).toList else []))
     unfold lineOf
     rw [hs]
@@ -2418,8 +2470,8 @@ theorem print_lines (tok : Str) (wp : Bool) (rs : List Reaction)
     simp only [mapOption, h r (by simp), ih (fun x hx => h x (by simp [hx])), List.map_cons]
 
 theorem parse_lines (tok : Str) (wp : Bool) (rs : List Reaction)
-    (h : ∀ r ∈ rs, toReaction .none tok (lineOf tok wp r) = .ok (normal wp r)) :
-    mapExcept (toReaction .none tok) (rs.map (lineOf tok wp)) = .ok (rs.map (normal wp)) := by
+    (h : ∀ r ∈ rs, toReactionCore .none tok (lineOf tok wp r) = .ok (normal wp r)) :
+    mapExcept (toReactionCore .none tok) (rs.map (lineOf tok wp)) = .ok (rs.map (normal wp)) := by
   induction rs with
   | nil => rfl
   | cons r rs ih =>
@@ -2446,12 +2498,54 @@ theorem systemLines_printed (cts : List Str) (ls : List Str) (hnl : ∀ l ∈ ls
       rw [List.filter_eq_self]; exact hkeep
     rw [h1]; simp [strip_nil]
 
+/-- the eval layer on a printed line: with an evaluating context the numeric parameter text is kept -/
+theorem lineOf_lift {tok : Str} {cts : List Str} {wp : Bool} {r : Reaction} (htok : tokOK tok = true)
+    (hnl : '\n' ∉ tok) (h : Printable tok cts wp r) :
+    toReaction true .none tok (lineOf tok wp r) = .ok (normal wp r) := by
+  have hcore := (lineOf_facts htok hnl h).2.1
+  have htl : ∀ q ∈ (if wp then (r.param.map (' ' :: ·)).toList else []), ';' ∉ q ∧ '\n' ∉ q := by
+    intro q hq
+    cases wp
+    · simp at hq
+    · cases hpm : r.param with
+      | none => rw [hpm] at hq; simp at hq
+      | some p =>
+        rw [hpm] at hq; simp at hq; subst hq
+        obtain ⟨_, h2, h3, _⟩ := h.param rfl p hpm
+        exact ⟨by simp [h2], by simp [h3]⟩
+  unfold lineOf at hcore ⊢
+  rw [toReaction_lift true .none htok (goodDict_terms h.reac) (goodDict_terms h.prod) _ htl
+      (by cases wp <;> cases r.param <;> simp), hcore]
+  · simp only [normal]
+    cases wp
+    · simp [finalParam]
+    · cases hpm : r.param with
+      | none => simp [finalParam]
+      | some p => simp [(finalParam_num (h.param rfl p hpm).2.2.2).1]
+  · intro _
+    cases wp
+    · simp [paramEvalOK]
+    · cases hpm : r.param with
+      | none => simp [paramEvalOK]
+      | some p =>
+        have hs := strip_pad (pre := [' ']) (post := []) (h.param rfl p hpm).1 (by simp [isPySpace_space]) (by simp)
+        simp only [List.append_nil, List.cons_append, List.nil_append] at hs
+        simp [hs, (finalParam_num (h.param rfl p hpm).2.2.2).2]
+
+theorem parse_lines' (tok : Str) (wp : Bool) (rs : List Reaction)
+    (h : ∀ r ∈ rs, toReaction true .none tok (lineOf tok wp r) = .ok (normal wp r)) :
+    mapExcept (toReaction true .none tok) (rs.map (lineOf tok wp)) = .ok (rs.map (normal wp)) := by
+  induction rs with
+  | nil => rfl
+  | cons r rs ih =>
+    simp only [List.map_cons, mapExcept, h r (by simp), ih (fun x hx => h x (by simp [hx]))]
+
 /-- **print a system, then parse it** (no names, no inactive groups): `from_string` returns the reactions with the
     same dictionaries and the printed parameter texts -/
 theorem system_print_parse {tok : Str} (cts : List Str) (wp : Bool) (rs : List Reaction) (htok : tokOK tok = true)
     (hnl : '\n' ∉ tok) (h : ∀ r ∈ rs, Printable tok cts wp r) :
     ∃ text, printSystem tok wp false none rs = some text ∧
-      systemFromString cts .none tok text = .ok (rs.map (normal wp)) := by
+      systemFromString true cts .none tok text = .ok (rs.map (normal wp)) := by
   have hf := fun r hr => lineOf_facts htok hnl (h r hr)
   refine ⟨joinStrs ['\n'] (rs.map (lineOf tok wp)) ++ ['\n'], ?_, ?_⟩
   · unfold printSystem
@@ -2461,7 +2555,7 @@ theorem system_print_parse {tok : Str} (cts : List Str) (wp : Bool) (rs : List R
     rw [systemLines_printed cts _ (by
         intro l hl; simp only [List.mem_map] at hl; obtain ⟨r, hr, rfl⟩ := hl; exact (hf r hr).2.2.1) (by
         intro l hl; simp only [List.mem_map] at hl; obtain ⟨r, hr, rfl⟩ := hl; exact (hf r hr).2.2.2)]
-    exact parse_lines tok wp rs (fun r hr => (hf r hr).2.1)
+    exact parse_lines' tok wp rs (fun r hr => lineOf_lift htok hnl (h r hr))
 
 theorem normal_eq {wp : Bool} {r : Reaction} (hir : r.inactReac = []) (hip : r.inactProd = [])
     (hp : wp = true ∨ r.param = none) : Reaction.eq (normal wp r) r = true := by
@@ -2473,5 +2567,6 @@ theorem normal_eq {wp : Bool} {r : Reaction} (hir : r.inactReac = []) (hip : r.i
 
 /-- `_init_stoich` leaves an OrderedDict exactly as it is -/
 theorem initStoich_ordered (d : Dict) : initStoich .ordered d = d := rfl
+
 
 end ChemModel.ReactionText
